@@ -67,7 +67,8 @@ VALUES = [['u'], ['s', 'a'], ['list', [['u'], ['s', 'a']]], ['list', [['u']]], [
           ['list', [['list', [['u']]]]], ['dict', 'k', ['list', [['u']]]], ['list', [['dict', 'k', ['u']]]]]
 NAMES = ['a', 'a.b', 'b']
 
-UNION_HINTS = [i for i, h in enumerate(HINTS) if 'union' in repr(h) or 'opt' in repr(h)]
+# (deepest first: Hypothesis over-represents the first element of a sampled_from in rarely taken branches)
+UNION_HINTS = sorted((i for i, h in enumerate(HINTS) if 'union' in repr(h) or 'opt' in repr(h)), key=lambda i: -len(repr(HINTS[i])))
 _hint_index = st.one_of(st.integers(0, len(HINTS) - 1), st.sampled_from(UNION_HINTS))
 
 op_s = st.one_of(
